@@ -75,6 +75,16 @@ func tmRun(t *testing.T, lines []string) []string {
 				timers[atoi(f[2])].Refresh()
 			case "stop":
 				timers[atoi(f[2])].Stop()
+			case "intervalself": // tm intervalself <k> <period> <n>: the callback cancels its own interval on its n-th run
+				k, left := atoi(f[2]), atoi(f[4])
+				inner := cb(k)
+				timers[k] = utils.SetInterval(func() {
+					inner()
+					left--
+					if left == 0 {
+						timers[k].Stop()
+					}
+				}, time.Duration(atoi(f[3]))*time.Millisecond)
 			case "timeoutstop": // created and cancelled back to back: the waiter goroutine has not run yet
 				k := atoi(f[2])
 				timers[k] = utils.SetTimeout(cb(k), time.Duration(atoi(f[3]))*time.Millisecond)
@@ -225,7 +235,17 @@ func famTimer(t *testing.T, r *Rec) {
 			}
 		}
 		_ = wantG
-		outs := tmRun(t, lines)
+		outs, fault := runIsolated(lines, 20*time.Second)
+		for len(outs) < len(lines) {
+			outs = append(outs, "fault:"+fault)
+		}
+		if fault != "" {
+			what := "the timer calls crashed the process"
+			if strings.Contains(fault, "deadlock") || fault == "hang" {
+				what = "a goroutine of a timer was left blocked for good (or a call never returned)"
+			}
+			r.Violate("C19", "C19/goroutine-left-behind/blocked", what+": "+fault, lines)
+		}
 		r.scenarios++
 		for i, l := range lines {
 			r.Op(l, outs[i])
@@ -253,7 +273,11 @@ func famTimer(t *testing.T, r *Rec) {
 	for _, kind := range []string{"timeout", "interval"} {
 		for _, at := range []int{9, 10, 11, 20} {
 			lines := []string{"tm cfg", fmt.Sprintf("tm %s 0 10", kind), fmt.Sprintf("tm stopat 0 %d", at), "tm sleep 100"}
-			outs := tmRun(t, lines)
+			// (in a child process: goroutines are counted, and this process has the helpers of earlier child runs)
+			outs, fault := runIsolated(lines, 20*time.Second)
+			for len(outs) < len(lines) {
+				outs = append(outs, "fault:"+fault)
+			}
 			r.scenarios++
 			for i, l := range lines {
 				r.Op(l, outs[i])
@@ -261,6 +285,28 @@ func famTimer(t *testing.T, r *Rec) {
 			r.Cover(fmt.Sprintf("timer/stopat/%s/%d", kind, at))
 			if !strings.HasSuffix(outs[3], "fired=- g=0") {
 				r.Violate("C19", "C19/after-cancel/"+kind, fmt.Sprintf("callbacks or goroutines after Stop returned: %s", outs[3]), lines)
+			}
+		}
+	}
+	// an interval whose callback cancels it: it runs exactly n times, the cancellation returns, nothing is left
+	for _, n := range []int{1, 3} {
+		for _, p := range []int{5, 10} {
+			lines := []string{"tm cfg", fmt.Sprintf("tm intervalself 0 %d %d", p, n), fmt.Sprintf("tm sleep %d", p*(n+3)), "tm sleep 50"}
+			outs, fault := runIsolated(lines, 20*time.Second)
+			for len(outs) < len(lines) {
+				outs = append(outs, "fault:"+fault)
+			}
+			r.scenarios++
+			for i, l := range lines {
+				r.Op(l, outs[i])
+			}
+			r.Cover(fmt.Sprintf("timer/intervalself/%d/%d", p, n))
+			var want []string
+			for i := 1; i <= n; i++ {
+				want = append(want, fmt.Sprintf("0@%d", i*p))
+			}
+			if fault != "" || outs[2] != "fired="+strings.Join(want, ",")+" g=0" || outs[3] != "fired=- g=0" {
+				r.Violate("C19", "C19/self-cancel", fmt.Sprintf("interval cancelled from its own callback on run %d: %s / %s %s", n, outs[2], outs[3], fault), lines)
 			}
 		}
 	}
